@@ -287,5 +287,73 @@ def resultEq (A : Arith22 V F) : Result V F → Result V F → Bool
 def holdsOn (A : Arith22 V F) (q : Query) (db : List (Series V)) (obs : Result V F) : Bool :=
   resultEq A obs (eval A q db)
 
+/-! ### a second field: WHERE conditions on it, and its value next to a selector
+
+  Series of the real storage engine may be SPARSE: a point carries `v`, `u`, or both.
+  `WHERE u ⋈ c` keeps the rows whose `u` at that timestamp exists and satisfies the
+  comparison (a missing value compares false); `SELECT sel(v), u` reports `u` of the
+  selected point (null when that point has none).  Both reduce to `eval` above. -/
+
+structure Pt2 (V : Type) where
+  t : Int
+  v : Option V
+  u : Option V
+
+structure Series2 (V : Type) where
+  host : String
+  pts : List (Pt2 V)
+
+inductive Cmp | gt | ge | lt | le
+deriving DecidableEq, Repr
+
+structure Query2 where
+  q : Query
+  /-- `WHERE u ⋈ c` -/
+  cond : Option (Cmp × Int)
+  /-- `SELECT sel(v), u` -/
+  aux : Bool
+
+def cmpHolds (A : Arith22 V F) (c : Cmp) (u k : V) : Bool :=
+  match c with
+  | .gt => A.vo.lt k u
+  | .ge => !A.vo.lt u k
+  | .lt => A.vo.lt u k
+  | .le => !A.vo.lt k u
+
+def condHolds (A : Arith22 V F) (cond : Option (Cmp × Int)) (u : Option V) : Bool :=
+  match cond, u with
+  | none, _ => true
+  | some _, none => false
+  | some (c, k), some x => cmpHolds A c x (A.ofIntV k)
+
+/-- the points of a sparse series a statement on field `v` sees -/
+def project (A : Arith22 V F) (q : Query2) (s : Series2 V) : Series V :=
+  ⟨s.host, s.pts.filterMap fun p =>
+    match p.v with
+    | some x => if condHolds A q.cond p.u then some ⟨p.t, x⟩ else none
+    | none => none⟩
+
+/-- `u` of the point at time `t` in the output group `host` (`none` = all series) -/
+def auxAt (db : List (Series2 V)) (host : Option String) (t : Int) : Val V F :=
+  let cands := (db.filter fun s => host = none || host = some s.host).flatMap fun s =>
+    s.pts.filter fun p => decide (p.t = t) && p.v.isSome
+  match cands with
+  | p :: _ => match p.u with | some x => .v x | none => .null
+  | [] => .null
+
+/-- aux columns are stated for a sole selector without GROUP BY time -/
+def supported2 (q : Query2) : Bool :=
+  !q.aux || (decide (q.q.dur = 0) && (match q.q.calls.eraseDups with | [a] => isSelector a | _ => false) &&
+    decide (q.q.calls.length = 1))
+
+def eval2 (A : Arith22 V F) (q : Query2) (db : List (Series2 V)) : Result V F :=
+  if !supported2 q then .err "unsupported" else
+  match eval A q.q (db.map (project A q)) with
+  | .rows l => if q.aux then .rows (l.map fun r => { r with vals := r.vals ++ [auxAt db r.host r.time] }) else .rows l
+  | e => e
+
+def holdsOn2 (A : Arith22 V F) (q : Query2) (db : List (Series2 V)) (obs : Result V F) : Bool :=
+  resultEq A obs (eval2 A q db)
+
 end
 end Influx.Spec.C22
